@@ -159,6 +159,8 @@ type rcase struct {
 	Hosts   string   `json:"hosts,omitempty"`
 	Env     string   `json:"env,omitempty"`
 	Targets []target `json:"targets"`
+	// genLabels: histogram labels of the rule-list generator for a real --direct-domains list (not replayed)
+	genLabels []string
 }
 
 // oneTarget is the replayable form of one evaluation: the target with the requests the same proxy
@@ -199,6 +201,17 @@ var localNamesOnce struct {
 type dialRec struct{ Pre, Post string }
 
 func runCase(ctx *core.Ctx, h *hops, rc *rcase) {
+	if rc.Route.DirectSet && rc.Route.DirectRaw != nil {
+		// a rule that is ITSELF an alternation Go's regexp/syntax factors with loss of a fold-case flag (C17: foldRisk)
+		// is outside the model's regular-expression semantics: such a list is not run
+		if strings.Contains(ctx.Model.MustAsk("C17", "risk", reqmodel.RawRulesToken(rc.Route.DirectRaw)), "1") {
+			ctx.Count("direct-domains/outside-model/rule-inside-go-alternation-factoring")
+			return
+		}
+		for _, l := range rc.genLabels {
+			ctx.Count("direct-domains/" + l)
+		}
+	}
 	view := viewOf(rc.Hosts)
 	names := view.localNames()
 	route := h.concrete(rc.Route)
@@ -505,6 +518,9 @@ func Run(ctx *core.Ctx) {
 		"PAC scripts are decision lists over (url, host): shExpMatch(url|host, glob), url.substring/indexOf tests, host == k, negations and conjunctions, a host table and a final return, " +
 		"each branch returning a string from the result grammar (keywords in any case, unknown ones, h:p, [v6]:p, missing/empty/non-numeric/out-of-range port, extra spaces, several ';' entries), an arbitrary string, a number, or throwing; " +
 		"target hosts include localhost, loopback literals and every name the machine's hosts file maps to a loopback address; " +
+		"60% of the direct-domains lists are REAL RULE LISTS from C17's generator (1-6 Go regular expressions with inline flags, groups, anchors, alternations, case-sensitive classes, excludes; " +
+		"44% built around an unscoped flag group in front of another rule or a letter one rule has in upper case and another case-folded), most requests of such a sequence going to hosts derived " +
+		"from the rules (example matches, case variants, near misses), judged with one regexp per rule; the matcher the flag values are read into is also compared at API level on all derived subjects; " +
 		"the model is one instance folded over the whole sequence (C05 routeseq), compared position by position; " +
 		"the same in child processes whose ENVIRONMENT names recording sink proxies (HTTP_PROXY / HTTPS_PROXY / ALL_PROXY / NO_PROXY in upper, lower and mixed case, " +
 		"NO_PROXY naming a target or not) with the no-upstream class over-represented: the sinks must never be dialled, the model takes the environment as an input; " +
@@ -519,6 +535,7 @@ func Run(ctx *core.Ctx) {
 		Replay(ctx, c)
 	}
 	pacAPI(ctx)
+	directAPI(ctx)
 	retryCases(ctx)
 	// the same in child processes whose environment names proxies, partly on generated hosts files (child.go);
 	// they run beside the cases of this process
@@ -590,6 +607,13 @@ func Replay(ctx *core.Ctx, raw json.RawMessage) {
 	switch k.Kind {
 	case "hostsfile":
 		checkHostsFile(ctx)
+		return
+	case "direct-list":
+		var c directCase
+		if err := json.Unmarshal(raw, &c); err != nil {
+			core.Fatalf("bad C05 case: %v", err)
+		}
+		checkDirectList(ctx, &c)
 		return
 	case "pac-string", "redirect", "splithostport":
 		return // API-level cases are regenerated by pacAPI on every run
